@@ -7,6 +7,11 @@ Correspondence: the extracted Coq model (coq/MotDefs.v via ocaml/drv_vi.ml) on t
 Oracle: `Ref` below -- an independent Python reference of the motion semantics over code points
 and display columns (flat character stream with line terminators, character classes, column
 tables), plus the invariants of the property (cursor on an existing character, text unchanged).
+Streams: corpus; fixed small buffers x every position x every key; random programs (general, sticky-column
+walks, f/t chains, bracket-pair texts); `long-line`: lines of 253..400 characters (the line limit xlim = 256
+of ren_position() counts the terminator) with wide / multi-byte characters and tabs, N| / $ / counted l and
+j / k into and out of them; `sticky3`: remembered column != cursor column, then a motion that succeeds without
+moving (chosen with the reference), then j / k.
 """
 import json, unicodedata
 import vlib
@@ -590,6 +595,207 @@ def gen_prog(rng, text):
     return prog
 
 
+# -- lines longer than the line limit of ren_position() (xlim = 256 characters, the terminator included).
+# Up to the limit a line with multi-byte characters is laid out by ren_position_reorder(); beyond it the
+# plain loop of ren_position() is the only path, whatever the line contains.  Wide and multi-byte
+# characters and tabs sit both near the start (small N| see them) and far to the right.
+WIDE1 = ['中', 'あ', '한', 'Ａ', '漢', '日', '本', '語']
+NARROW_MB = ['\u00e9', '\u044f', '\u03a9', '\u20ac', '\u00f6', '\u0301', '\U00010400', '\u200b']    # é я Ω € ö, combining acute, Deseret (4 bytes), zero width space
+# (not ZWNJ / ZWJ: conf.h counts them as right-to-left characters; two of them with only neutral characters between are reordered)
+LONG_LENGTHS = [253, 254, 255, 256, 257, 258, 259, 260, 300, 320, 400]
+
+
+def gen_long_line(rng, n, flavour=None):
+    """exactly n characters (code points); flavour 0: wide/multi-byte/tabs everywhere, 1: a dense head and
+    an ASCII tail, 2: an ASCII head and the special characters far to the right, 3: narrow multi-byte
+    characters and tabs only, 4: ASCII and tabs only (control)"""
+    fl = flavour if flavour is not None else rng.below(5)
+    out = []
+    far = rng.range(40, max(41, n - 20))
+    while len(out) < n:
+        i = len(out)
+        dense = fl == 0 or (fl == 1 and i < 24) or (fl == 2 and i >= far) or fl == 3
+        t = rng.below(20)
+        if fl == 4:
+            out.append('\t' if t == 0 else rng.choice('abcdefgh .,(x)'))
+        elif dense and t < 4 and fl != 3:
+            out.append(rng.choice(WIDE1))
+        elif dense and t < 8:
+            out.append(rng.choice(NARROW_MB))
+        elif dense and t < 10:
+            out.append('\t')
+        elif 10 <= t < 13:
+            out.append(' ')
+        elif not dense and t == 13 and rng.chance(1, 4):
+            out.append('\t')
+        else:
+            out.append(rng.choice('abcdefghijklmnopqrstuvwxyz0123456789_.,()'))
+    return ''.join(out[:n])
+
+
+SHORT_LINES = ['0123456789', 'ab', '', 'ab\tcd\tef', '中中中中中x', '\tx', 'é\tX', 'abcdefghijklmnopqrstuvwxyz' * 3,
+               'a中b한c  ét', '  indented line', '    ']
+
+
+def gen_long_text(rng):
+    ls = []
+    nl = rng.range(2, 4)
+    nlong = 0
+    for i in range(nl):
+        if rng.chance(1, 2) or (i == nl - 1 and nlong == 0):
+            n = rng.choice(LONG_LENGTHS) if rng.chance(2, 3) else rng.range(257, 400)
+            ls.append(gen_long_line(rng, n))
+            nlong += 1
+        else:
+            ls.append(rng.choice(SHORT_LINES) if rng.chance(3, 4) else gen_line(rng))
+    return '\n'.join(ls) + '\n'
+
+
+def gen_long_prog(rng, text):
+    """column motions into, inside and out of the long lines: N| (near the start and anywhere), $, counted l,
+    f / w to somewhere, then j / k walks (the column taken from / applied to a long line)"""
+    ls = lines_of(text)
+    prog = []
+    r = rng.below(len(ls))
+    prog.append(['g', r + 1])
+    width = max((coltab(l + '\n')[-1] for l in ls), default=0)
+
+    def colmotion(row):
+        n = max(1, len(ls[row]))
+        t = rng.below(10)
+        if t < 4:
+            return ['m', rng.range(1, 48), '|']
+        if t < 6:
+            return ['m', rng.range(1, width + 4), '|']
+        if t == 6:
+            return ['m', 0, '$']
+        if t == 7:       # (a counted l lays the line out for every step: long counts are rare, the model is slow on them)
+            return ['m', rng.range(1, n + 2) if rng.chance(1, 12) else rng.range(1, 24), 'l']
+        if t == 8:
+            return ['m', rng.range(1, 40), rng.choice('wWeE')]
+        return ['m', rng.choice([0, 1, 2, 3]), rng.choice('fFtT'), rng.choice(ls[row]) if ls[row] else 'q']
+    prog.append(colmotion(r))
+    for _ in range(rng.range(1, 4)):
+        t = rng.below(10)
+        if t < 6:
+            prog.append(['m', rng.choice([0, 0, 1, 2, 3]), rng.choice('jjkkjk')])
+        elif t < 8:
+            prog.append(colmotion(r))
+        elif t == 8:
+            prog.append(['m', rng.choice([0, 1, 2, 7, 30]), rng.choice('hl')])
+        else:
+            prog.append(gen_motion(rng, text))
+    if prog[-1][2] not in 'jk|' and rng.chance(2, 3):
+        prog.append(['m', rng.choice([0, 1, 2]), rng.choice('jk')])
+    return prog
+
+
+# -- the sticky column after a motion that succeeds WITHOUT moving the cursor.  Three steps: (1) the remembered
+# column differs from the cursor's own column (j / k from a far column onto a shorter line, onto a tab or the
+# second cell of a wide character, or N| beyond the end of the line); (2) a motion that succeeds and whose
+# target is the position the cursor is already on ($ on the last character, l h w e b at an edge, 0 ^ at that
+# offset, + - G _ onto the same line, t<c> next to the cursor, ...) -- it makes the cursor's column the
+# remembered one; (3) j / k onto a line long enough to tell the two columns apart.
+STICKY_LINES = ['abcdefghij', 'ABCDEFGHIJKLMNOPQRST', 'abc', 'x', '', '\tx', 'ab\tcd\tef', '中中中中中中', 'a中b한c',
+                '  indented', '    ', 'foo bar baz qux', 'été', '\t\tdeep', 'a', 'zz top (x)',
+                '0123456789012345678901234567890123456789']
+STILL_KEYS = ['$', 'l', 'h', 'w', 'e', 'b', 'W', 'E', 'B', '0', '^', '+', '-', 'G', '_', '{', '}', 'H', 'M', 'L', ' ', '%']
+
+
+def gen_sticky_text(rng):
+    ls = []
+    for _ in range(rng.range(3, 6)):
+        ls.append(rng.choice(STICKY_LINES) if rng.chance(4, 5) else gen_line(rng))
+    return '\n'.join(ls) + '\n'
+
+
+def ref_after(ls, rows, prog):
+    ref = Ref(ls, rows - 1)
+    ref.run(prog)
+    return ref
+
+
+def still_motions(ref):
+    """the motions (with counts and arguments) that the reference defines as succeeding from ref's state with the
+    position they land on = the position the cursor is on"""
+    import copy
+    out = []
+    here = (ref.r, ref.o)
+    cands = []
+    for k in STILL_KEYS:
+        cands.append(['m', 0, k])
+        if k in 'lhwebWEB ':
+            cands.append(['m', 3, k])
+        if k in 'G_':
+            cands.append(['m', ref.r + 1 if k == 'G' else 1, k])
+    line = ref.L[ref.r] if ref.L else ''
+    if ref.o + 1 < len(line):
+        cands.append(['m', 0, 't', line[ref.o + 1]])
+    if ref.o >= 1:
+        cands.append(['m', 0, 'T', line[ref.o - 1]])
+    if ref.last is not None:
+        cands += [['m', 0, ';'], ['m', 0, ',']]
+    for m in cands:
+        r2 = copy.copy(ref)
+        try:
+            ok = r2.motion(m[1], m[2], m[3] if len(m) > 3 else None)
+        except (ValueError, IndexError):
+            continue
+        if ok and (r2.r, r2.o) == here:
+            out.append(m)
+    return out
+
+
+def gen_sticky3(rng, per_state):
+    """cases (text, rows, prog) of the three-step shape; per_state = how many of the non-moving motions are tried
+    from one state (0 = all)"""
+    text = gen_sticky_text(rng)
+    rows = rng.choice([24, 24, 6, 5])
+    ls = lines_of(text)
+    best = None
+    for _ in range(8):
+        r = rng.below(len(ls))
+        pre = [['g', r + 1]]
+        t = rng.below(6)
+        if t < 2:
+            pre.append(['m', 0, '$'])
+        elif t < 4:
+            pre.append(['m', rng.range(2, 30), '|'])
+        elif t == 4:
+            pre.append(['m', rng.range(1, 12), 'l'])
+        else:
+            pre.append(['m', rng.range(1, 3), rng.choice('weE')])
+        if not (t in (2, 3) and rng.chance(1, 3)):          # else: N| alone (beyond the end of the line)
+            pre.append(['m', rng.choice([0, 0, 1, 2]), rng.choice('jk')])
+            if rng.chance(1, 4):
+                pre.append(['m', rng.choice([0, 1]), rng.choice('jk')])
+        ref = ref_after(ls, rows, pre)
+        stale = ref.xcol != ref.off2col(ref.r, ref.o)
+        if best is None or stale:
+            best = (pre, ref, stale)
+        if stale:
+            break
+    pre, ref, stale = best
+    still = still_motions(ref)
+    rng.shuffle(still)
+    if per_state:
+        still = still[:per_state]
+    if not still:
+        still = [gen_motion(rng, text)]
+    out = []
+    for m in still:
+        prog = pre + [m]
+        if rng.chance(1, 5):                  # a second non-moving motion in a row
+            more = still_motions(ref_after(ls, rows, prog))
+            if more:
+                prog.append(rng.choice(more))
+        prog.append(['m', rng.choice([0, 0, 1, 2]), rng.choice('jk')])
+        if rng.chance(1, 3):
+            prog.append(['m', rng.choice([0, 1]), rng.choice('jk')])
+        out.append({'text': text, 'rows': rows, 'prog': prog, 'stream': 'sticky3' if stale else 'sticky3-control'})
+    return out
+
+
 FIXED_TEXTS = [
     'foo.bar  (a[1]) {x}\n\n  \tindentéd w中文 énd  \n\n\nlast_1 )\n',
     '\tab\tc((d))\n \nああ Ａb\n',
@@ -680,13 +886,34 @@ def run(ctx):
                 text = gen_text(rng, 7 if rng.chance(4, 5) else 14)
                 prog = gen_prog(rng, text)
             cases.append({'text': text, 'rows': rng.choice([24, 24, 6, 5, 4, 3]), 'prog': prog})
+        # lines beyond the line limit of ren_position (and exactly at it), with wide / multi-byte characters and tabs
+        rl = rng.fork('long-lines')
+        for i in range(260 if ctx.quick else 8000):
+            text = gen_long_text(rl)
+            cases.append({'text': text, 'rows': rl.choice([24, 24, 6, 4]), 'prog': gen_long_prog(rl, text), 'stream': 'long-line'})
+        # the sticky column after a successful motion that does not move the cursor
+        rs = rng.fork('sticky3')
+        for i in range(160 if ctx.quick else 5000):
+            cases += gen_sticky3(rs, 3 if ctx.quick else 0)
     res.count('cases', len(cases))
+    for c in cases:
+        res.count('stream ' + c.get('stream', 'corpus' if 'corpus' in c else 'general'))
 
     obs = vlib.pmap(lambda c: check_case(exe, c, res), cases)
     reqs = [model_req(c['text'], c['rows'], c['prog']) for c in cases]
     mout = None
     if model:
-        rc, mout, err = vlib.run_lines(model, reqs, timeout=1500)
+        # the model driver answers line by line: the requests are dealt round-robin to 16 processes
+        nw = 16
+        parts = vlib.pmap(lambda j: vlib.run_lines(model, reqs[j::nw], timeout=1500) if reqs[j::nw] else (0, [], ''), list(range(nw)))
+        rc = max(p[0] for p in parts)
+        err = ''.join(p[2] for p in parts)
+        mout = [None] * len(reqs)
+        if all(len(parts[j][1]) == len(reqs[j::nw]) for j in range(nw)):
+            for j in range(nw):
+                mout[j::nw] = parts[j][1]
+        else:
+            mout = []
         if rc != 0 or len(mout) != len(reqs):
             res.disagree({'what': 'model driver failed: rc=%d, %d answers for %d requests' % (rc, len(mout), len(reqs)), 'stderr': err[-500:]})
             mout = None
